@@ -119,7 +119,11 @@ _current = {"classes": [], "sig": None}
 
 def _open_post(ctx):
     fn, text, stream = ctx.pre
-    case = {"call": "kg.open", "file": text if len(text) < 30000 else None, "path": fn if len(text) >= 30000 else None}
+    import base64
+    import zlib
+
+    case = {"call": "kg.open", "file": text if len(text) < 30000 else None,
+            "file_zb64": base64.b64encode(zlib.compress(text.encode("utf-8"), 9)).decode("ascii") if len(text) >= 30000 else None}
     classes = list(_current["classes"])
     sig = _current["sig"] or ("kg.open", os.path.basename(fn))
     mech = {"op": "kg.open", "exc": type(ctx.exc).__name__ if ctx.exc else None}
@@ -477,11 +481,14 @@ def replay(v, work):
 
     c = v["case"]
     with contextlib.redirect_stdout(io.StringIO()):
-        if c["call"] in ("kg.open", "kg.reopen") and (c.get("file") or c.get("path")):
-            fn = c.get("path") or os.path.join(str(work), "replay.KlattGrid")
-            if c.get("file"):
-                with open(fn, "w", encoding="utf-8") as fd:
-                    fd.write(c["file"])
+        if c["call"] in ("kg.open", "kg.reopen") and (c.get("file") or c.get("file_zb64")):
+            import base64
+            import zlib
+
+            fn = os.path.join(str(work), "replay.KlattGrid")
+            text = c.get("file") or zlib.decompress(base64.b64decode(c["file_zb64"])).decode("utf-8")
+            with open(fn, "w", encoding="utf-8") as fd:
+                fd.write(text)
             kg = call(klattgrid.openKlattgrid, fn)
             if kg is not None and c["call"] == "kg.reopen":
                 out = os.path.join(str(work), "replay_out.KlattGrid")
